@@ -674,3 +674,23 @@ pub fn show_long(l: &[String]) -> String {
     };
     format!("{n}#{h}#{}", if shown.is_empty() { "-".to_owned() } else { shown.join(";") })
 }
+
+/// Does rosu-map's curve of some slider of the map, computed for the given curve mode (`osu = true`:
+/// `GameMode::Osu`, which runs the catmull optimisation pass; otherwise catch), contain a NaN /
+/// infinite vertex or cumulative length? The narrow classifier of the known finding
+/// `curve-nan-vertex` (docs/delivery-CURVE.md O2 / O3).
+pub fn map_has_nonfinite_curve(map: &Beatmap, osu: bool) -> bool {
+    use rosu_map::section::{
+        general::GameMode as MapMode,
+        hit_objects::{Curve, CurveBuffers},
+    };
+    use rosu_pp::model::hit_object::HitObjectKind;
+    let mut bufs = CurveBuffers::default();
+    map.hit_objects.iter().any(|h| match &h.kind {
+        HitObjectKind::Slider(s) => {
+            let c = Curve::new(if osu { MapMode::Osu } else { MapMode::Catch }, &s.control_points, s.expected_dist, &mut bufs);
+            c.path().iter().any(|p| !p.x.is_finite() || !p.y.is_finite()) || c.lengths().iter().any(|l| !l.is_finite())
+        }
+        _ => false,
+    })
+}
